@@ -152,6 +152,22 @@ Closure(U, dr, ds) ==
 
 NeededDocs(U, dr) == Closure(U, dr, {1})
 
+\* The resolver's final table, as L0 sees it: every reference of every needed document with the subschema it
+\* designates, and whether a $dynamicRef is one that is re-bound at evaluation time (its fragment is a name that
+\* the designated subschema declares as $dynamicAnchor).  The replay compares it, entry by entry, with the real
+\* Resolved (hook VerifRefTarget).
+AllTargets(U, dr) ==
+  UNION {LET S == U.docs[d].s
+             withRef == {q \in AllPaths(S) : ~("bool" \in DOMAIN NodeAtS(S, q)) /\ "ref" \in DOMAIN NodeAtS(S, q)}
+             withDyn == IF dr = "d7" THEN {} ELSE {q \in AllPaths(S) : ~("bool" \in DOMAIN NodeAtS(S, q)) /\ "dynamicRef" \in DOMAIN NodeAtS(S, q)}
+         IN {[d |-> d, p |-> p, kind |-> "ref", t |-> Designates(U, dr, Addr(d, p), NodeAtS(S, p).ref), dyn |-> FALSE] : p \in withRef}
+            \cup {LET r == NodeAtS(S, p).dynamicRef
+                      t0 == Designates(U, dr, Addr(d, p), r)
+                  IN [d |-> d, p |-> p, kind |-> "dyn", t |-> t0,
+                      dyn |-> (t0 # NoTarget /\ r.f.k = "name" /\ r.f.a \in DynAnchorsOf(dr, NodeAtS(U.docs[t0.d].s, t0.p)))] : p \in withDyn}
+         : d \in NeededDocs(U, dr)}
+DesignatedTargets(U, dr) == {e \in AllTargets(U, dr) : e.t # NoTarget}
+
 \* Resolve must succeed iff every reference in every needed document
 \* designates a subschema (and anchors are unique within each resource).
 DupAnchors(U, dr, d) ==
